@@ -201,9 +201,9 @@ def run_one(slot_dir: str, prop_id: str, mut: dict, nproc: int, tier: str, suite
             res["outcome"] = "import-fails"
             return res
         t = time.time()
-        env2 = dict(os.environ, VERIF_REPO=scratch, VERIF_NPROC=str(nproc), VERIF_TIMEOUT="900")
+        env2 = dict(os.environ, VERIF_REPO=scratch, VERIF_NPROC=str(nproc), VERIF_TIMEOUT=os.environ.get("AUTOMUTATE_TIMEOUT", "300"))
         try:
-            c = subprocess.run(["./check", prop_id, "--tier", tier], cwd=slot_dir, env=env2, capture_output=True, text=True, timeout=1200)
+            c = subprocess.run(["./check", prop_id, "--tier", tier], cwd=slot_dir, env=env2, capture_output=True, text=True, timeout=int(os.environ.get("AUTOMUTATE_TIMEOUT", "300")) + 120)
             rc, out = c.returncode, c.stdout + c.stderr
         except subprocess.TimeoutExpired:
             rc, out = 2, "timeout"
